@@ -123,6 +123,8 @@ pub fn opts_for(prop: &str) -> GenOpts {
             o.stale_pct = 25;
         }
         "C02" => {
+            // "take the rest" chunk sizes at the edge of usize (known-size kinds only)
+            o.huge_pct = 4;
             o.w_composite = 12;
             o.w_single = 25;
             o.w_chunk = 25;
@@ -130,6 +132,8 @@ pub fn opts_for(prop: &str) -> GenOpts {
             o.stale_pct = 25;
         }
         "C03" => {
+            // "take the rest" chunk sizes at the edge of usize (known-size kinds only)
+            o.huge_pct = 4;
             o.w_single = 10;
             o.w_chunk = 40;
             o.w_buf = 40;
@@ -162,6 +166,8 @@ pub fn opts_for(prop: &str) -> GenOpts {
             o.max_ops = 3;
         }
         "C06" => {
+            // "take the rest" chunk sizes at the edge of usize (known-size kinds only)
+            o.huge_pct = 4;
             o.w_skip = 14;
             o.w_query = 10;
             o.extra_max = 14;
@@ -175,6 +181,8 @@ pub fn opts_for(prop: &str) -> GenOpts {
             o.stale_pct = 25;
         }
         "C08" => {
+            // "take the rest" chunk sizes at the edge of usize (known-size kinds only)
+            o.huge_pct = 4;
             o.kinds = CONSUMING.to_vec();
             o.w_skip = 6;
             o.w_stop = 6;
@@ -205,6 +213,8 @@ pub fn opts_for(prop: &str) -> GenOpts {
             o.drain = false;
         }
         "C11" => {
+            // "take the rest" chunk sizes at the edge of usize (known-size kinds only)
+            o.huge_pct = 4;
             o.w_query = 40;
             o.w_skip = 6;
             o.w_stop = 4;
@@ -213,6 +223,8 @@ pub fn opts_for(prop: &str) -> GenOpts {
             o.pre_pct = 30;
         }
         "C12" => {
+            // "take the rest" chunk sizes at the edge of usize (known-size kinds only)
+            o.huge_pct = 4;
             o.w_composite = 60;
             o.w_single = 10;
             o.w_chunk = 5;
@@ -222,6 +234,8 @@ pub fn opts_for(prop: &str) -> GenOpts {
             o.stale_pct = 20;
         }
         "C13" => {
+            // "take the rest" chunk sizes at the edge of usize (known-size kinds only)
+            o.huge_pct = 4;
             o.kinds = vec![
                 Kind::ClonedSlice,
                 Kind::ClonedIter,
@@ -240,6 +254,8 @@ pub fn opts_for(prop: &str) -> GenOpts {
             o.call_granular_pct = 50;
         }
         "C19" => {
+            // "take the rest" chunk sizes at the edge of usize (known-size kinds only)
+            o.huge_pct = 4;
             o.kinds = vec![
                 Kind::Slice,
                 Kind::SliceRef,
@@ -259,6 +275,8 @@ pub fn opts_for(prop: &str) -> GenOpts {
             o.multi_iter = true;
         }
         "C15" => {
+            // "take the rest" chunk sizes at the edge of usize (known-size kinds only)
+            o.huge_pct = 4;
             o.kinds = CONSUMING.to_vec();
             o.w_skip = 6;
             o.w_stop = 6;
@@ -462,7 +480,9 @@ fn gen_ops(rng: &mut Rng, o: &GenOpts, len: usize, is_thread: bool, huge_pct: u6
                 });
             }
             4 => {
-                let c = if rng.chance(1, 3) {
+                let c = if rng.chance(huge_pct, 100) {
+                    huge_chunk_size(rng)
+                } else if rng.chance(1, 3) {
                     1
                 } else {
                     chunk_size(rng, len)
